@@ -79,6 +79,13 @@ def run(tier, seed):
     problem, meta = spaces.gen_space(r, vz)
     opts = {'scale': r.random() < 0.7, 'onehot_embed': r.random() < 0.6, 'pad_oovs': r.random() < 0.6,
             'max_discrete_indices': r.choice([0, 10, 10, np.inf]), 'dtype': r.choice([np.float32, np.float64, np.float64])}
+    if si % 5 == 2:
+      # a log-scaled parameter whose distinct bounds have the same logarithm in the feature dtype (scaling must not divide by 0)
+      lo_, hi_, dt_ = r.choice([(1000.0, 1000.0001, np.float32), (1e15, 1e15 + 1.0, np.float64), (1e15, 1e15 + 2.0, np.float64)])
+      problem.search_space.root.add_float_param('pnear', lo_, hi_, scale_type=r.choice([vz.ScaleType.LOG, vz.ScaleType.REVERSE_LOG]))
+      meta['pnear'] = ('f', (lo_, hi_))
+      opts['scale'], opts['dtype'] = True, dt_
+      rep.count('space_with_near_degenerate_log_range')
     try:
       if opts['onehot_embed'] and r.random() < 0.5:
         conv = converters.TrialToArrayConverter.from_study_config(
